@@ -50,6 +50,10 @@ type Server struct {
 	Plan     []Fault
 	planNext int // absolute number of the command the head of Plan strikes (0 = not armed)
 	Struck   int // faults of the plan that struck so far
+	// FailNth: label ("insert:-_-Snapshots") -> which occurrence of that command, counted from SetFailNth, is answered
+	// with an error and not executed (once): a fault addressed by what the command is, whatever the schedule made its number
+	FailNth   map[string]int
+	seenLabel map[string]int
 	// Gate, if non-nil, is called on arrival of every application command (before it executes),
 	// outside the server lock; the schedule explorer parks the calling goroutine there.
 	Gate func(label string)
@@ -63,6 +67,14 @@ type Server struct {
 type Fault struct {
 	Kind  string `json:"kind"`
 	After int    `json:"after"`
+}
+
+// SetFailNth arms the failure of the nth command with the given label from now on.
+func (s *Server) SetFailNth(label string, nth int) {
+	s.mu.Lock()
+	s.FailNth = map[string]int{label: nth}
+	s.seenLabel = map[string]int{}
+	s.mu.Unlock()
 }
 
 // SetPlan arms a fault plan relative to the commands executed so far.
@@ -361,6 +373,14 @@ func (s *Server) handleMsg(reqID uint32, body []byte) ([]byte, bool) {
 		s.exec(n, name, coll, cmd, seqs)
 		s.mu.Unlock()
 		return nil, true
+	}
+	if nth := s.FailNth[label]; nth > 0 {
+		s.seenLabel[label]++
+		if s.seenLabel[label] == nth {
+			s.Struck++
+			s.mu.Unlock()
+			return msgReply(reqID, errDoc(8000, "AtlasError", fmt.Sprintf("mongofake: injected failure of command %d (%s, occurrence %d)", n, label, nth))), false
+		}
 	}
 	if s.FailAt == n {
 		s.mu.Unlock()
